@@ -342,16 +342,22 @@ class MSession:
         return len(self.raw)
 
     def parse(self, text: str):
+        if self.dead:          # the session ended at its first exception; nothing further is recorded
+            return None
         self.texts.append(text)
         obj, exc = timed(parse_marker, text)
         return self._push({"op": "parse", "a": 0, "b": 0, "text": text, "exc": exc, "names": []}, obj)
 
     def binop(self, op: str, a: int, b: int):
+        if self.dead or a is None or b is None:          # the session ended at its first exception; nothing further is recorded
+            return None
         x, y = self.objs[a - 1], self.objs[b - 1]
         obj, exc = timed((lambda: x & y) if op == "and" else (lambda: x | y))
         return self._push({"op": op, "a": a, "b": b, "text": "", "exc": exc, "names": []}, obj)
 
     def reparse(self, a: int):
+        if self.dead or a is None:          # the session ended at its first exception; nothing further is recorded
+            return None
         x = self.objs[a - 1]
         text, exc = timed(str, x)
         if exc:
@@ -368,6 +374,8 @@ class MSession:
                            "has_empty_token": "<empty>" in text}, obj)
 
     def project(self, op: str, a: int, names: list[str]):
+        if self.dead or a is None:          # the session ended at its first exception; nothing further is recorded
+            return None
         x = self.objs[a - 1]
         if op == "only":
             obj, exc = timed(lambda: x.only(*names))
@@ -378,6 +386,8 @@ class MSession:
         return self._push({"op": op, "a": a, "b": 0, "text": "", "exc": exc, "names": names}, obj)
 
     def law(self, name: str, a: int, b: int, pid: str = "C14"):
+        if self.dead or a is None or b is None:          # the session ended at its first exception; nothing further is recorded
+            return None
         return self._push({"op": "law", "a": a, "b": b, "text": "", "exc": "", "names": [], "law": name, "law_pid": pid}, None)
 
     def finish(self, grid_seed: int) -> dict:
